@@ -607,8 +607,8 @@ theorem cache_layout_facts :
     Dud.Facts.minChecksumLen = 3 ∧
     Dud.Facts.commitBytesOrder =
       ["os.CreateTemp", "os.Remove", "checksum.Checksum", "os.MkdirAll", "os.Rename", "os.Chmod"] ∧
-    Dud.Facts.commitTempDir = "ch.dir" ∧ Dud.Facts.commitRenameArgs = "moveFile,cachePath" ∧
-    Dud.Facts.commitChmodArgs = "cachePath,cacheFilePerms" := by decide
+    Dud.Facts.commitTempDir = "$recv.dir" ∧ Dud.Facts.commitRenameArgs = "$param1,$local<$recv.PathForChecksum>" ∧
+    Dud.Facts.commitChmodArgs = "$local<$recv.PathForChecksum>,cacheFilePerms" := by decide
 
 /-! ## non-vacuity -/
 
